@@ -244,7 +244,10 @@ func zzH_C14_data() {
 // C14/fin-step: a FIN in ESTABLISHED.
 func zzH_C14_fin() {
 	c, _ := zzCanary()
-	iss, rcv := zzU32(), zzU32()
+	iss, rcv := uint32(0xfffffffd), zzU32() // server ISS near the wrap; symbolic in the thorough tier
+	if zzParam("SYM", 0) == 1 {
+		iss = zzU32()
+	}
 	sport, dport, _ := zzPortsWin()
 	s := zzConn14(c, zzPeerIP, sport, dport, SocketEstablished, iss, rcv)
 	zzInject(c, zzSeg{sport: sport, dport: dport, seq: rcv, ack: iss + 2, flags: tcp.FIN | tcp.ACK, window: 1000, peer: zzPeerIP})
@@ -445,4 +448,67 @@ func zzH_C20_probeknock() {
 	default:
 		zzAssert(false, "the knock is of the probe's protocol")
 	}
+}
+
+// C14/close-step: the listener's handler has already closed its side (state FIN-WAIT-1 after
+// the real Socket.Close, which sends the listener's FIN) or that FIN has been acknowledged
+// (FIN-WAIT-2); now the client's FIN arrives, acknowledging either everything including the
+// listener's FIN or only what came before it (the two FINs crossed). The client's FIN is
+// answered with exactly one frame that acknowledges it.
+func zzH_C14_close() {
+	c, _ := zzCanary()
+	iss, rcv := uint32(0xfffffffd), zzU32() // the listener's FIN crosses the wrap; symbolic in the thorough tier
+	if zzParam("SYM", 0) == 1 {
+		iss = zzU32()
+	}
+	sport, dport, _ := zzPortsWin()
+	s := zzConn14(c, zzPeerIP, sport, dport, SocketEstablished, iss, rcv)
+	s.socket.Close() // the handler is done: FIN sent, FIN-WAIT-1
+	fr := zzFrames(c)
+	zzAssert(len(fr) == 1 && s.State == SocketFinWait1, "closing the socket sends the listener's FIN")
+	finSeq := iss + 2 // sequence number of the listener's FIN
+	ackOfClient := finSeq
+	if zzBool() {
+		ackOfClient = finSeq + 1 // the client has seen the listener's FIN
+	}
+	if zzBool() {
+		// a plain ACK of the listener's FIN first (FIN-WAIT-2)
+		zzInject(c, zzSeg{sport: sport, dport: dport, seq: rcv, ack: finSeq + 1, flags: tcp.ACK, window: 1000, peer: zzPeerIP})
+		zzAssert(len(zzFrames(c)) == 0, "a data-less ACK is not answered")
+		ackOfClient = finSeq + 1
+	}
+	zzInject(c, zzSeg{sport: sport, dport: dport, seq: rcv, ack: ackOfClient, flags: tcp.FIN | tcp.ACK, window: 1000, peer: zzPeerIP})
+	fr = zzFrames(c)
+	zzAssert(len(fr) == 1, "the client's FIN is answered with exactly one frame, whether or not it acknowledges the listener's FIN")
+	if len(fr) == 1 && len(fr[0]) >= 54 {
+		// (checksums of emitted frames are the subject of the step harnesses)
+		seg := fr[0][34:]
+		ack := uint32(seg[8])<<24 | uint32(seg[9])<<16 | uint32(seg[10])<<8 | uint32(seg[11])
+		fl := seg[13] & 0x3f
+		zzAssert(fl&byte(tcp.ACK) != 0 && fl&byte(tcp.SYN|tcp.RST) == 0, "the answer is an acknowledgement")
+		zzAssert(ack == rcv+1, "the client's FIN is acknowledged (sequence number + 1)")
+	}
+}
+
+// C14/late-data: connection A has been reported and closed by its handler; connection B is
+// set up afterwards; a further data segment of A arrives, then B's data. What B's handler
+// finds in B's receive buffer is exactly B's own bytes.
+func zzH_C14_late() {
+	c, _ := zzCanary()
+	spA, spB := uint16(40001), uint16(40002)
+	dport := uint16(8080)
+	a := zzConn14(c, zzPeerIP, spA, dport, SocketEstablished, 100, 5000)
+	a.socket.Close() // A's handler is done
+	zzFrames(c)
+	b := zzConn14(c, zzPeerIP, spB, dport, SocketEstablished, 200, 9000)
+	lateA, dataB := zzBytes(2), zzBytes(2)
+	zzInject(c, zzSeg{sport: spA, dport: dport, seq: 5000, ack: 103, flags: tcp.ACK, window: 1000, payload: lateA, peer: zzPeerIP})
+	zzInject(c, zzSeg{sport: spB, dport: dport, seq: 9000, ack: 202, flags: tcp.ACK, window: 1000, payload: dataB, peer: zzPeerIP})
+	got := b.socket.rbuffer.Bytes()
+	same := len(got) == 2
+	for i := 0; same && i < 2; i++ {
+		same = zzAnd(same, got[i] == dataB[i])
+	}
+	zzAssert(same, "a connection's receive buffer holds exactly the bytes of its own stream, whatever other connections send")
+	zzAssert(b.RecvNext == 9002 && a.RecvNext == 5002, "each connection's data advances only its own sequence state")
 }
